@@ -5,6 +5,8 @@ use std::net::SocketAddrV4;
 use std::ops::AsyncFn;
 use std::str::FromStr;
 use std::sync::Arc;
+use std::sync::atomic::AtomicBool;
+use std::sync::atomic::Ordering;
 use std::time::Duration;
 
 use anyhow::Result;
@@ -141,7 +143,7 @@ where
     })
 }
 
-/// how long a flow whose local side has closed waits for the server to close the connection
+/// how long a flow of which one direction has ended cleanly waits for the other direction to end too
 const CLOSE_GRACE: Duration = Duration::from_secs(10);
 
 async fn relay_tcp<I, O>(local_client: I, client_server: O) -> relay::Result
@@ -151,14 +153,18 @@ where
 {
     let (c_l, l_c) = local_client.split();
     let (c_s, s_c) = client_server.split();
+    // A direction that ends cleanly has flushed and closed its sink. The other direction goes on until it ends too (then
+    // the flow ends at once), for at most CLOSE_GRACE; an error ends the flow at once. Dropping the sockets as soon as one
+    // direction is done would close them with unread input (the other direction's bytes, TLS session tickets), which
+    // resets the connection and destroys what is still in flight in either direction.
+    let one_done = AtomicBool::new(false);
 
     let l_c_s = async {
         match l_c.forward(c_s).await {
             Ok(_) => {
-                // everything the local side wrote is on its way and the sink is closed: let the server read it to the end
-                // and close the connection (which ends the other pump and the flow). Closing now, possibly with unread
-                // inbound data such as TLS session tickets, would reset the connection and destroy what is still in flight.
-                time::sleep(CLOSE_GRACE).await;
+                if !one_done.swap(true, Ordering::Relaxed) {
+                    time::sleep(CLOSE_GRACE).await;
+                }
                 Err::<(), _>(relay::Result::Close(End::Local, End::Client))
             }
             Err(e) => Err(relay::Result::Err(End::Local, End::Client, e)),
@@ -167,7 +173,12 @@ where
 
     let s_c_l = async {
         match s_c.forward(c_l).await {
-            Ok(_) => Err::<(), _>(relay::Result::Close(End::Server, End::Client)),
+            Ok(_) => {
+                if !one_done.swap(true, Ordering::Relaxed) {
+                    time::sleep(CLOSE_GRACE).await;
+                }
+                Err::<(), _>(relay::Result::Close(End::Server, End::Client))
+            }
             Err(e) => Err(relay::Result::Err(End::Server, End::Client, e)),
         }
     };
